@@ -78,6 +78,13 @@ RecProgs(k) ==
                   Text(<<"[">>), Emit(Call("pair", <<Str(<<"k">>), Call("up", <<Str(<<"x">>)>>)>>)), Text(<<",">>),
                   Emit(Call("pair", <<Call("up", <<Str(<<"a">>)>>), Call("up", <<Str(<<"b">>)>>)>>)), Text(<<",">>),
                   Emit(Call("pair", <<Str(<<"k">>), Call("pair", <<Str(<<"m">>), Call("up", <<Str(<<"n">>)>>)>>)>>)), Text(<<"]">>)>>,
+    \* sibling calls of different functions from one scope: the parameters of the earlier call are gone in the later one
+    siblings |-> <<Let("inc", FnLit(<<"m">>, <<Ret(Bin("+", Id("m"), IntL(1)))>>)), Let("dbl", FnLit(<<"m">>, <<Ret(Bin("*", Id("m"), IntL(2)))>>)),
+                   Let("ap", FnLit(<<"inc", "v">>, <<Ret(Call("inc", <<Id("v")>>))>>)), Let("nx", FnLit(<<"v">>, <<Ret(Call("inc", <<Id("v")>>))>>)),
+                   Text(<<"[">>), Emit(Call("ap", <<Id("dbl"), IntL(k)>>)), Text(<<"|">>), Emit(Call("nx", <<IntL(k)>>)), Text(<<"|">>), Emit(Call("ap", <<Id("dbl"), IntL(k)>>)), Text(<<"]">>)>>,
+    \* very many calls in one render (k = 5: 1200 of them), each returning a value
+    manycalls |-> <<Let("sq", FnLit(<<"m">>, <<Code(If(Bin("==", Id("m"), IntL(0)), <<Ret(IntL(0))>>)), Ret(IntL(1))>>)),
+                    Text(<<"[">>), Emit(For("", "i", Call("range", <<IntL(1), IntL(IF k = 5 THEN 1200 ELSE k + 1)>>), <<Emit(Call("sq", <<Id("i")>>))>>)), Text(<<"]">>)>>,
     \* a returned array is the call's value as it is: one element, nested arrays
     retarr |-> <<Let("wrap", FnLit(<<"x">>, <<Ret(Arr(<<Id("x")>>))>>)), Let("rows", FnLit(<<"p", "q">>, <<Ret(Arr(<<Arr(<<Id("p")>>), Arr(<<Id("q")>>)>>))>>)),
                  Let("w", Call("wrap", <<IntL(k)>>)), Let("r", Call("rows", <<IntL(k), IntL(9)>>)),
@@ -86,7 +93,7 @@ RecProgs(k) ==
     \* the name at a call site is bound to another function between two executions of that call (loop variable)
     rebind |-> <<Let("inc", FnLit(<<"m">>, <<Ret(Bin("+", Id("m"), IntL(1)))>>)), Let("dbl", FnLit(<<"m">>, <<Ret(Bin("*", Id("m"), IntL(2)))>>)),
                 Text(<<"[">>), Emit(For("", "w", Arr(<<Id("inc"), Id("dbl"), Id("inc")>>), <<Emit(Call("w", <<IntL(k)>>)), Text(<<";">>)>>)), Text(<<"]">>)>> ]
-RecNames == {"sum", "down", "fib", "after", "twice", "apply", "compose", "rebind", "nestarg", "retarr"}
+RecNames == {"sum", "down", "fib", "after", "twice", "apply", "compose", "rebind", "nestarg", "retarr", "siblings", "manycalls"}
 RECURSIVE Fib(_)
 Fib(k) == IF k < 2 THEN k ELSE Fib(k - 1) + Fib(k - 2)
 RECURSIVE Rep(_, _)
@@ -100,6 +107,8 @@ RecText(nm, k) ==
     [] nm = "apply" -> <<"[">> \o IntChars(k + 1) \o <<",">> \o IntChars(2 * k) \o <<",">> \o IntChars(k + 1) \o <<"]">>
     [] nm = "compose" -> <<"[">> \o IntChars(2 * k + 1) \o <<",">> \o IntChars(2 * (k + 1)) \o <<"]">>
     [] nm = "nestarg" -> <<"[", "k", "-", "x", "!", ",", "a", "!", "-", "b", "!", ",", "k", "-", "m", "-", "n", "!", "]">>
+    [] nm = "siblings" -> <<"[">> \o IntChars(2 * k) \o <<"|">> \o IntChars(k + 1) \o <<"|">> \o IntChars(2 * k) \o <<"]">>
+    [] nm = "manycalls" -> <<"[">> \o Rep("1", IF k = 5 THEN 1200 ELSE k + 1) \o <<"]">>
     [] nm = "retarr" -> <<"[", "1", ",", "(">> \o IntChars(k) \o <<")", ",", "2", ",", "1", ",", "9", "]">>
     [] nm = "rebind" -> <<"[">> \o IntChars(k + 1) \o <<";">> \o IntChars(2 * k) \o <<";">> \o IntChars(k + 1) \o <<";", "]">>
 
